@@ -184,7 +184,11 @@ def run_property(prop_id, tier='quick', seed=0, jobs=None):
 
 def kf_matches(entry, fn_rep, ob):
     m = entry.get('match', {})
-    if m.get('function') and m['function'] != fn_rep['function']:
+    # an entry applies to proof obligations only if it names the function (entries for bounded sweeps carry `bounded` instead and
+    # must never absorb an obligation)
+    if not m.get('function') or m.get('bounded'):
+        return False
+    if m['function'] != fn_rep['function']:
         return False
     if m.get('kind') and m['kind'] != ob['kind']:
         return False
